@@ -41,12 +41,19 @@ def _replay_scripts(ctx):
 # hand-written histories that are run first on every check (regressions of things seen while building this
 # component: fans attached out of order, self-adjacent cell, deferred-deleted neighbours, parallel edges)
 FIXED_SCRIPTS = {
-    "fx-two-tets-face-deleted": ["AddVs 5", "@AddFV 0 1 2", "@AddFV 0 2 3", "@AddFV 0 3 1", "@AddFV 1 3 2", "@AddC 1 0 2 4 6",
-                                 "@AddFV 1 2 4", "@AddFV 2 3 4", "@AddFV 3 1 4", "@AddC 1 7 8 10 12", "QLookup 3 3", "@DelF 3", "QLookup 4 3",
-                                 "EnDef 0", "@DelC 0", "QLookup 5 3"],
-    "fx-open-fan-middle-first": ["AddVs 6", "@AddFV 0 1 3", "@AddFV 0 3 4", "@AddFV 0 4 1", "@AddFV 1 4 3", "@AddC 0 0 2 4 6",
-                                 "@AddFV 0 1 2", "@AddFV 0 2 3", "@AddFV 1 3 2", "@AddC 0 8 10 1 12", "@AddFV 0 4 5", "@AddFV 0 5 1", "@AddFV 1 5 4",
-                                 "@AddC 0 5 14 16 18", "QLookup 9 3", "@DelC 0", "QLookup 10 3", "GC", "QLookup 11 3"],
+    # 3 tets closing a ring around edge 0-1, attached in the order 2nd, 3rd, 1st; then faces / cells deleted
+    "fx-ring3-order-120": ["EnDef 1", "EnFast 0", "AddVs 5", "@AddFV 0 1 3", "@AddFV 0 3 4", "@AddFV 0 4 1", "@AddFV 1 4 3", "@AddC 1 2 0 6 4",
+                           "@AddFV 0 4 2", "@AddFV 0 2 1", "@AddFV 1 2 4", "@AddC 0 10 12 5 8", "@AddFV 0 2 3", "@AddFV 1 3 2", "@AddC 0 14 1 16 11",
+                           "QLookup 551536 3", "@DelF 5", "QLookup 519129 3", "@DelF 8", "QLookup 515970 3", "@DelC 0", "QLookup 239360 3",
+                           "GC", "QLookup 7 3", "EnFBU 0", "EnFBU 1", "QLookup 950237 3"],
+    # 2 tets forming an open chain around edge 0-1, second one attached first; immediate deletion mode
+    "fx-open2-order-10": ["EnDef 0", "EnFast 1", "AddVs 5", "@AddFV 0 1 3", "@AddFV 0 3 4", "@AddFV 0 4 1", "@AddFV 1 4 3", "@AddC 0 4 0 6 2",
+                          "@AddFV 0 1 2", "@AddFV 0 2 3", "@AddFV 1 3 2", "@AddC 1 10 8 12 1", "QLookup 274974 3", "@DelF 0", "QLookup 547832 3",
+                          "EnEBU 0", "EnEBU 1", "QLookup 3 3"],
+    # one prism glued to itself: the cell contains a triangle and its opposite (closed, self-adjacent)
+    "fx-self-adjacent-cell": ["AddVs 3", "@AddE 0 1 0", "@AddE 1 2 0", "@AddE 2 0 0", "@AddE 0 0 0", "@AddE 1 1 0", "@AddE 2 2 0",
+                              "@AddF 1 0 2 4", "@AddF 1 0 8 1 7", "@AddF 1 2 10 3 9", "@AddF 1 4 6 5 11", "@AddC 0 0 1 2 4 6", "QLookup 1 3",
+                              "@DelF 2", "QLookup 2 3"],
     "fx-parallel-edges": KNOWN_SIGNATURES[0]["script"] + ["@AddF 1 0 4 6", "QLookup 2 3"],
     "fx-incidences-off": ["AddVs 4", "@AddFV 0 1 2", "@AddFV 0 2 3", "@AddFV 0 3 1", "@AddFV 1 3 2", "@AddC 1 0 2 4 6", "EnVBU 0", "QLookup 1 3",
                           "EnEBU 0", "QLookup 2 3", "EnFBU 0", "QLookup 3 3", "EnFBU 1", "EnEBU 1", "EnVBU 1", "QLookup 4 3"],
@@ -123,7 +130,7 @@ def _lookup_run(ctx, pid, mask, profiles, relevant_ops, tags, count_quick, count
 def check_C10(ctx):
     fw.coq_prove(ctx, "Props/Properties_C10.v")
     _lookup_run(ctx, "C10", 1, ["lkvalid", "lkdegen", "lksetops", "fans"], {"QLookup"}, C10_TAGS,
-                count_quick=8, count_thorough=60, nops_quick=8, nops_thorough=16)
+                count_quick=12, count_thorough=60, nops_quick=8, nops_thorough=16)
     ctx.cov["rule"] = ("scripts from gen/lookupgen.py (kgen fragments + fans in given attachment orders + degenerate meshes with parallel edges, "
                        "2-gons, non-simple faces, deferred-deleted entities; one SplitMix64 state per script) run on the extracted model and the real "
                        "library; at every 'QLookup' line both print EVERY lookup on an exhaustive batch (all ordered vertex pairs, all (pair, cell), "
@@ -144,7 +151,7 @@ def check_C09(ctx):
     fw.coq_prove(ctx, "Props/Properties_C09.v")
     _lookup_run(ctx, "C09", 2, ["fans", "lkvalid"],
                 {"QLookup", "AddC", "DelF", "DelC", "DelE", "DelV", "GC", "EnEBU", "EnFBU", "SwapF", "SwapE", "SwapC", "SwapV"}, C09_TAGS,
-                count_quick=14, count_thorough=120, nops_quick=8, nops_thorough=16)
+                count_quick=30, count_thorough=120, nops_quick=8, nops_thorough=16)
     ctx.cov["rule"] = ("fan scripts from gen/lookupgen.py: k tets around an edge, closed ring / open chain, attached in EVERY order for k<=3 and sampled "
                        "orders for k=4,5(,6), then deletions of cells and faces in every deletion mode, incidence toggles, garbage collection, swaps, "
                        "plus kgen 'valid' histories; lock step of the ordered halfedge->halfface lists (HFS), the halfface->cell cache (CELL) and "
